@@ -647,6 +647,14 @@ def rule_tables(ctx, R):
                 o = ao.of_operand(a, bi, "t")
                 if o[0] == "const" and isinstance(o[2], str) and len(o[2]) > 3:
                     tabs.append((nm.rsplit("::", 1)[-1], o[2]))
+        # the same table kept as a `const NAME: [char; N]` item and indexed directly
+        for blk in ab.blocks:
+            for st_ in blk["stmts"]:
+                x = st_.get("r", {}).get("x")
+                if isinstance(x, dict) and x.get("k") == "const" and x.get("uneval") and str(x.get("ty", "")).startswith("[char;"):
+                    cs = const_chars(fb, x["uneval"])
+                    if cs and len(cs) > 3:
+                        tabs.append((nm.rsplit("::", 1)[-1], "".join(cs)))
     R.check(len(tabs) == 2 and tabs[0][1] == tabs[1][1], "tables:renderers_equal", "the two renderings of area trees use the same character table: %s" % tabs)
     if tabs and hearts:
         R.check(all(t == "?!" + "".join(hearts) for _, t in tabs), "tables:renderer_vs_parser", "renderer table = '?', '!' followed by HEARTS in order (14 distinct characters: rendering is injective and matches the parser's numbering)")
